@@ -76,6 +76,7 @@ func TestVerif_C20(t *testing.T) {
 	for s := 0; s < evid.Pick(6, 200) && rec.Violations() < 25; s++ {
 		vfC20Server(rec, s)
 	}
+	vfC20ExecuteWithWorker(rec)
 }
 
 func vfC20Scenario(rec *evid.Rec, s int) {
@@ -467,6 +468,52 @@ func vfC20Server(rec *evid.Rec, s int) {
 		p.c.Close()
 	}
 	if action != "Close" {
+		srv.Close()
+	}
+}
+
+// vfC20ExecuteWithWorker: the server's entry point ExecuteWithWorker with tasks of every kind of
+// result (a value, a nil interface, a typed nil, an error value, zero): whatever the task returns,
+// it is executed exactly once and its own result comes back - also while the pool is being resized.
+func vfC20ExecuteWithWorker(rec *evid.Rec) {
+	for _, workers := range []int{1, 2, 4} {
+		fs := refs.New()
+		srv, err := vfNewSrv(fs, ExportOptions{AttrCacheTimeout: 1, MaxWorkers: workers})
+		if err != nil {
+			rec.Infra(err.Error())
+			return
+		}
+		type kind struct {
+			name string
+			val  func() interface{}
+		}
+		var nilErr error
+		var nilPtr *NFSNode
+		kinds := []kind{{"value", func() interface{} { return 42 }}, {"nil", func() interface{} { return nil }}, {"nil-error", func() interface{} { return nilErr }},
+			{"typed-nil-pointer", func() interface{} { return nilPtr }}, {"zero", func() interface{} { return 0 }}, {"empty-string", func() interface{} { return "" }}, {"false", func() interface{} { return false }}}
+		for round := 0; round < 3; round++ {
+			for _, k := range kinds {
+				var execs atomic.Int32
+				want := k.val()
+				got := srv.nfs.ExecuteWithWorker(func() interface{} {
+					execs.Add(1)
+					return k.val()
+				})
+				rec.Eval(1)
+				if n := execs.Load(); n != 1 {
+					rec.Violate("C20/execute-with-worker/task-executed-"+map[bool]string{true: "more-than-once", false: "not-at-all"}[n > 1]+"/result="+k.name, fmt.Sprintf("a task returning %s through ExecuteWithWorker (pool of %d) ran %d times", k.name, workers, n), nil)
+				}
+				if fmt.Sprintf("%#v", got) != fmt.Sprintf("%#v", want) {
+					rec.Violate("C20/execute-with-worker/foreign-result/result="+k.name, fmt.Sprintf("got %#v want %#v", got, want), nil)
+				}
+				rec.Distinct(fmt.Sprintf("execute-with-worker|workers=%d|%s|round=%d", workers, k.name, round))
+			}
+			if round == 0 {
+				srv.nfs.UpdateTuningOptions(func(t *TuningOptions) { t.MaxWorkers = workers + 1 })
+			} else if round == 1 {
+				srv.nfs.UpdateTuningOptions(func(t *TuningOptions) { t.MaxWorkers = 1 })
+			}
+		}
 		srv.Close()
 	}
 }
